@@ -1248,8 +1248,9 @@ static int write_triple_quoted(void *context, const UChar *text, int32_t line1_l
         } else {
             return CIF_ERROR;
         }
-    } else if (text[line1_length]) {
-        assert(text[line1_length] == '\n');
+    } else if (text[line1_length - 3]) {
+        /* line1_length accounts for the opening delimiter in addition to the first line of the text */
+        assert(text[line1_length - 3] == '\n');
         last_column = 0;  /* as-of before writing the last line */
     }
 
